@@ -35,6 +35,11 @@ THEOREMS = [
     "OllamaVerif.C12.restart_untouched",
     "OllamaVerif.C12.exec_seqOK",
     "OllamaVerif.C12.crash_safe",
+    "OllamaVerif.C12.atomic_manifest_old_or_new",
+    "OllamaVerif.C12.atomic_never_torn",
+    "OllamaVerif.C12.atomic_replaced_model_kept",
+    "OllamaVerif.C12.rerun_converges_partial",
+    "OllamaVerif.C12.rerun_converges_pull_partial",
     "OllamaVerif.C12.F19a_replaced_model_lost",
     "OllamaVerif.C12.F19b_torn_part_record_blocks_repull",
 ]
@@ -73,6 +78,10 @@ def run(ctx):
     if rc != 0:
         ctx.violation("driver-failed", "", out[-1500:], no_input=True)
     st = ctx.read_stats(outdir)
+    # which variant of the code this tree is (detected by the driver from the real syscall trace of a copy
+    # and of a pull; the oracle runs the same variant of the model)
+    ctx.coverage["variant"] = {"atomic_manifest_writes": bool(st.get("variant_atomic_manifest", 0)),
+                               "atomic_part_record_writes": bool(st.get("variant_atomic_part_record", 0))}
     ctx.l1(outdir, normalize=normalize, keep_samples=3)
     ctx.classify(ctx.l2(outdir))
     if not ctx.replay and st.get("cases", 0) < ctx.scale(100, 600):
